@@ -846,12 +846,18 @@ def resolve (rootFirst : List Name) : M (Path × Node) := do
   let st ← rootStat
   resolveFrom [] st rootFirst
 
-inductive OFlag where | r | w | rw | wt | wa
+/-- `rt` = O_RDONLY|O_TRUNC and `ra` = O_RDONLY|O_APPEND: read access mode, yet not read-only opens -/
+inductive OFlag where | r | w | rw | wt | wa | rt | ra
   deriving DecidableEq, Repr
 
 def OFlag.isWrite : OFlag → Bool
   | .r => false
   | _ => true
+
+def OFlag.isTrunc : OFlag → Bool
+  | .wt => true
+  | .rt => true
+  | _ => false
 
 inductive Op where
   | lookup (p : List Name)
@@ -1008,7 +1014,7 @@ def runOp : Op → M Reply
     | .l => fail ELOOP
     | .o => fail ENXIO
     | .f => do
-      let _ ← doOpen path fl.isWrite (fl == .wt)
+      let _ ← doOpen path fl.isWrite fl.isTrunc
       pure .done
   | .write p fl off data => do
     let (path, st) ← resolve p
@@ -1017,7 +1023,7 @@ def runOp : Op → M Reply
     | .l => fail ELOOP
     | .o => fail ENXIO
     | .f => do
-      doWrite path (fl == .wt) (fl == .wa) off data
+      doWrite path fl.isTrunc (fl == .wa) off data
       pure .done
   | .read p => do
     let (path, st) ← resolve p
